@@ -215,8 +215,12 @@ def write_wkt(
         The path where the geometry should be written to.
     """
     with open(path, 'w') as f:
-        # The default is to round all coordinates to six decimal places
-        f.write(shapely.to_wkt(_to_multipolygon(dataset), rounding_precision=-1))
+        # The default is to round all coordinates to six decimal places.
+        # The precision is a number of decimal places, not of significant digits,
+        # and "full precision" (-1) is sixteen decimal places,
+        # which still rounds coordinates smaller than one.
+        # Ask for more decimal places than any coordinate needs.
+        f.write(shapely.to_wkt(_to_multipolygon(dataset), rounding_precision=340))
 
 
 def write_wkb(
